@@ -245,3 +245,91 @@ def analyse_program_goals(text, goals, N, seed=0, settings=None, force_cyclic=Fa
     finally:
         polar.reset_settings()
         res["cpu_s"] = round(_time.process_time() - _t0, 2)
+
+
+def cli_text_check(text, goals, N, stats, at_n=3):
+    """The printed route: GoalsAction.handle_all_goals with --at_n, parsing the lines
+        E(M) = v0; v1; ...; formula         and        E(M | n=k) = value
+    (covers prettify_piecewise, unpack_piecewise, eval_re).  -> list of violation dicts"""
+    import contextlib
+    import io
+    import re
+    import sympy
+    from . import polar
+
+    out = []
+    try:
+        with cpu_limit(20):
+            model = build_model(text)
+            model.run(N)
+    except (NotApplicable, NotPolynomial, RefParseError, CapHit, CpuTimeout):
+        return out
+    from cli.actions.goals_action import GoalsAction
+    from recurrences import RecBuilder
+
+    polar.reset_settings()
+    args = polar.cli_defaults()
+    args.goals = ["E(%s)" % g for g in goals]
+    args.at_n = at_n
+    try:
+        with cpu_limit(CASE_CPU):
+            program = polar.normalize(polar.parse(text))
+            ga = GoalsAction(args)
+            ga.initialize_program(program, RecBuilder(program))
+            buf = io.StringIO()
+            with contextlib.redirect_stdout(buf):
+                ga.handle_all_goals()
+    except CpuTimeout:
+        stats["refusals"]["timeout@cli"] = stats["refusals"].get("timeout@cli", 0) + 1
+        return out
+    except Exception as e:
+        k = "cli:" + exc_name(e)
+        stats["refusals"][k] = stats["refusals"].get(k, 0) + 1
+        return out
+    printed = buf.getvalue()
+    nsym = sympy.Symbol("n", integer=True)
+    for g in goals:
+        gp = parse_poly(g)
+        gs = str(sympy.sympify(g)) if program.is_probabilistic else str(sympy.sympify(g))
+        ident = "E(%s)" % sympy.sympify(g) if program.is_probabilistic else str(sympy.sympify(g))
+        m1 = re.search(r"^%s = (.*)$" % re.escape(ident), printed, re.M)
+        m2 = re.search(r"^%s = (.*) ≅" % re.escape(("E(%s | n=%d)" % (sympy.sympify(g), at_n)) if program.is_probabilistic
+                                                     else ("%s | n=%d" % (sympy.sympify(g), at_n))), printed, re.M)
+        if not m1:
+            stats["cli_lines_missing"] = stats.get("cli_lines_missing", 0) + 1
+            continue
+        parts = [p.strip() for p in m1.group(1).split(";")]
+        try:
+            with cpu_limit(GOAL_CPU):
+                specials, formula = parts[:-1], sympy.sympify(parts[-1], locals={"n": nsym})
+                for i, sv in enumerate(specials):
+                    want = model.moment(gp, i)
+                    verdict, how, txt = polar.compare_value(sympy.sympify(sv), want)
+                    stats["evaluations"] += 1
+                    if verdict == "neq":
+                        out.append({"sub": "cli E(%s)" % g, "detail": {"program": text, "printed": m1.group(0)[:300], "n": i,
+                                                                       "printed_value": sv, "expected": want.to_text()}})
+                        break
+                else:
+                    for n in range(len(specials), max(N, len(specials) + 2) + 1):
+                        want = model.moment(gp, n)
+                        verdict, how, txt = polar.compare_value(polar.at_n(formula, n), want)
+                        stats["evaluations"] += 1
+                        if verdict == "neq":
+                            out.append({"sub": "cli E(%s)" % g, "detail": {"program": text, "printed": m1.group(0)[:300], "n": n,
+                                                                           "formula_value": txt, "expected": want.to_text()}})
+                            break
+                if m2:
+                    want = model.moment(gp, at_n)
+                    verdict, how, txt = polar.compare_value(sympy.sympify(m2.group(1)), want)
+                    stats["evaluations"] += 1
+                    if verdict == "neq":
+                        out.append({"sub": "cli E(%s | n=%d)" % (g, at_n), "detail": {"program": text, "printed": m2.group(0)[:200],
+                                                                                    "expected": want.to_text()}})
+                stats["cli_goals_compared"] = stats.get("cli_goals_compared", 0) + 1
+        except CpuTimeout:
+            stats["refusals"]["timeout@cli-compare"] = stats["refusals"].get("timeout@cli-compare", 0) + 1
+            break
+        except (sympy.SympifyError, SyntaxError, TypeError):
+            stats["cli_unparsable"] = stats.get("cli_unparsable", 0) + 1
+    return out
